@@ -1343,7 +1343,8 @@ theorem jd0_shaped : Shaped jd0 := by
   rcases hit with rfl | rfl | rfl | rfl | rfl | rfl
   · trivial
   · exact ⟨by intro as h; cases h; decide, by decide⟩
-  · intro k hk
+  · refine ⟨?_, fun h => by cases h⟩
+    intro k hk
     simp only [List.mem_cons, List.not_mem_nil, or_false] at hk
     rcases hk with rfl | rfl | rfl | rfl
     · trivial
@@ -1371,6 +1372,7 @@ example : ∃ g, parseGlif (fun _ => some 0) (Spec.flatten jd1) = .ok g :=
       intro it hit
       simp only [jd1, List.mem_cons, List.not_mem_nil, or_false] at hit
       subst hit
+      refine ⟨?_, fun h => by cases h⟩
       intro k hk
       simp only [List.mem_cons, List.not_mem_nil, or_false] at hk
       subst hk
